@@ -261,6 +261,8 @@ func TestRun(t *testing.T) {
 	collect()
 	heldAcrossClose(rec, vr.Scale(36, 360))
 	collect()
+	blockPastEnd(rec, vr.Scale(36, 360))
+	collect()
 	rel, reuse, checked, poisoned := pool.VerifTrackerStats()
 	rec.Count("tracker_releases_observed", rel)
 	rec.Count("tracker_reuses_of_released_objects", reuse)
